@@ -521,6 +521,12 @@ func (e *Engine) evalBinary(env *Env, n *cexpr.Node) Value {
 
 // valueEq compares two values structurally. ident requests representation identity for strings.
 func (e *Engine) valueEq(x, y Value, ident bool) *smt.Term {
+	if f, ok := x.(FuncRefV); ok && f.Fn != nil {
+		x = RefV{T: smt.Var("fn:"+f.Fn.String(), smt.Int), Typ: f.Fn.Type()}
+	}
+	if f, ok := y.(FuncRefV); ok && f.Fn != nil {
+		y = RefV{T: smt.Var("fn:"+f.Fn.String(), smt.Int), Typ: f.Fn.Type()}
+	}
 	if _, ok := x.(NilV); ok {
 		x, y = y, x
 	}
